@@ -16,14 +16,20 @@ class C17(Prop):
     ready = True
     manifest = dict(
         text="Coq theorems over EVERY executable label sequence (= every schedule at the granularity of Stream.mutex / the "
-             "ring-buffer mutex; every queue size > 0, any number of readers, formats, sub-streams) of a labelled transition "
-             "system that transliterates Stream.AddReader/RemoveReader, Reader.start/stop/run/push, SubStream.WriteUnit's "
+             "ring-buffer mutex; every queue size > 0, any number of readers, medias/formats, sub-streams) of a labelled "
+             "transition system that transliterates Reader.OnData (the nested map media -> format -> callback), "
+             "Stream.AddReader/RemoveReader, Reader.start/stop/run/push, SubStream.WriteUnit's "
              "stale guard, the writeUnitInner fan-out and gortsplib's ring buffer (slots, read/write index, closed flag): "
              "the ring is a bounded FIFO; what a reader got (delivered ++ in flight ++ queued) is a subsequence of the units "
              "written for it by the current sub-stream while it was attached (order, at most once, no foreign format); "
              "written = delivered + in flight + queued + discarded exactly (until Close drops <= queueSize queued items); the "
              "discarded counter moves only in a Write that found the queue full, by one; after RemoveReader returns no "
-             "callback of the reader is executable and its record is frozen; a write through a replaced sub-stream is a no-op. "
+             "callback of the reader is executable and its record is frozen; a write through a replaced sub-stream is a no-op; "
+             "stream formats are keyed as in the code by (media, format) and the subscriber table of a pair holds exactly the "
+             "attached readers whose OnData labels name that pair (every format of a media, not only the first); with "
+             "SubStream.WriteUnit split into start / RLock / currency comparison / finish, the code's order (lock, then "
+             "compare) makes every fine-grained schedule a history with one Write label per call, while the reversed order "
+             "has a schedule (proved) that hands a replaced publisher's unit to a reader. "
              "Tied to the code by driving random schedules through the real Stream/Reader/SubStream with channel-gated "
              "callbacks and comparing, after every step, discarded counters, ring occupancy, subscription tables, pulled "
              "items and the delivered lists inside Coq.",
@@ -34,21 +40,29 @@ class C17(Prop):
              "the fan-out (counted as inbound frame errors) are not Write labels.",
         technique="Coq proof: invariant between the LTS state and a per-reader monitor over the labels, preserved by every "
                   "step, lifted to all histories by induction; ring-buffer/FIFO refinement; correspondence by vm_compute")
-    rule = ("random schedules (8-48 driver operations, each expanded into its atomic steps) on a real stream with 2 formats, "
-            "queue size 1/2/4/8, up to 4 attached readers (subsets of the formats, incl. none), normal and always-available "
-            "streams; operations: write through the current or a stale sub-stream, let a callback return (nil or error), add "
-            "reader, RemoveReader (preferring readers with a unit in flight and units queued), new sub-stream; two thirds of "
+    rule = ("random schedules (8-48 driver operations, each expanded into its atomic steps) on a real stream whose description "
+            "is one of five shapes (formats per media: [1,1], [2,1], [3,1], [2], [1,2,2]; G711/LPCM/Opus with distinct payload "
+            "types; always-available streams: [1,1]), queue size 1/2/4/8, up to 4 attached readers; a reader's OnData calls are "
+            "steps of their own: any subset of the (media, format) pairs (often several formats of one media; also none / all), "
+            "any order, in one third of the cases spread between other steps (a further format is registered after units were "
+            "written), always before AddReader; operations: write to any pair through the current or a stale sub-stream, let a "
+            "callback return (nil or error), OnData / add reader, RemoveReader (preferring readers with a unit in flight and "
+            "units queued), new sub-stream, and on always-available streams the forced 'raced switch' (driver holds "
+            "Stream.mutex, a WriteUnit of the current publisher waits for it in another goroutine, the locked part of "
+            "SubStream.Initialize is performed, the mutex is released); two thirds of "
             "the cases rarely let callbacks return so queues fill up; the reader goroutines pull eagerly (real behaviour), so "
             "Pull steps are observed, not chosen; class = set of features met (discard, remove-inflight, remove-queued, "
-            "stale-write, resub, cb-error); non-trivial = any feature; distinct = distinct descriptions")
+            "stale-write, resub, cb-error, multi-format, late-ondata, raced-switch); non-trivial = any feature; distinct = distinct descriptions")
     trusted_base = ["Coq 8.16.1 kernel + VM (vm_compute for cases)",
-                    "in-package Go driver zz_verif_c17_test.go (reads gortsplib's ring buffer through reflect/unsafe under the ring's own mutex)",
+                    "in-package Go driver zz_verif_c17_test.go (reads gortsplib's ring buffer through reflect/unsafe under the ring's own mutex; "
+                    "reads sync.RWMutex.readerCount to know that a WriteUnit goroutine waits for Stream.mutex; the raced switch repeats the locked part of SubStream.Initialize by hand)",
+                    "model Model/C17_WriteLock.v hand-written (RWMutex: exclusive sections are single labels, read-locked sections exclude them)",
                     "model Model/C17_StreamSM.v hand-written (incl. the third-party gortsplib v5 ringbuffer), tied by correspondence",
                     "atomicity of the code sections protected by Stream.mutex and the ring-buffer mutex (sync.Mutex/RWMutex semantics)"]
     assumptions = ["WriteQueueSize is a power of two >= 1 (enforced by conf validation; ringbuffer.New fails otherwise)",
-                   "readers register only formats of the stream and a Reader object is added at most once (API preconditions; otherwise the real code panics / restarts the reader)",
+                   "readers register only formats of the stream, OnData is called before AddReader, and a Reader object is added at most once (API preconditions; otherwise the real code panics / restarts the reader / the stream never sees the registration)",
                    "schedules are interleavings of mutex-protected steps: no claim about data races or the Go memory model",
-                   "a WriteUnit call whose processing reaches the fan-out is one atomic Write label"]
+                   "a WriteUnit call whose processing reaches the fan-out is one Write label (justified for the lock/compare/fan-out split by C17_write_call_atomic; the per-reader pushes inside the fan-out are not split)"]
 
     def run_drivers(self, ctx, n, seed, replay=None):
         cases, summaries, errors = super().run_drivers(ctx, n, seed, replay)
